@@ -258,7 +258,7 @@ func (StoreCohScenario) Execute(sim *sched.Sim, ci interface{}, prop string, rac
 		sim.Optional[p] = true
 	}
 	sim.RoleOf = roleOf
-	sim.Canon = newCanon().canon
+	useCanon(sim)
 	var db *badger.DB
 	switch c.Backend {
 	case "mock":
